@@ -225,8 +225,11 @@ def c14(run):
     # C14.c on the interpreted program (whatever functions the activation / processing code is split into): with nothing accepted the
     # state entered at activation is prong 0 -- the first declared state --, and a surviving request for id k enters exactly prong k
     from rules import flow_rules
-    flow_rules.flow_obligations(run, {'C02.d'}, cfgs=cfgs)
+    # -- for every entry point that dispatches (replay and load included): an enter/reenter/exit dispatched with the invalid prong falls
+    # through the binary search to the last declared state, i.e. runs the callbacks of a state nobody asked for (C01.a observer)
+    flow_rules.flow_obligations(run, {'C02.d', 'C01.a'}, cfgs=cfgs)
     run.relabel('C02.d', 'C14.c')
+    run.relabel('C01.a', 'C14.c')
     run.floor('C14.b', 300)
     run.floor('C14.c', 3)
     run.floor('C14.d', 6)
